@@ -682,6 +682,11 @@ def rule_descriptor_cache(check, rule, rule_weak):
         if not cached:
             if v[0] == 'S' and v[2] in (bound, bound2):
                 check.holds(rule, st, 'the cache is looked up by the function bound to (instance, owner)', key=key)
+            elif v == selft and same is True:
+                check.holds(rule, st, 'access through the class (binding gives the function itself): the descriptor returns itself', key=key)
+            elif v == selft:
+                check.violation(rule, st, 'returns the unbound descriptor itself although the wrapped function was bound to an instance', key=key,
+                                witness='obj.method must be the translator bound to obj')
             else:
                 check.violation(rule, st, 'cache hit returns %s, not the entry of the function bound to this instance' % show(v)[:80], key=key,
                                 witness='a.method and b.method must be bound to a and b respectively')
@@ -690,7 +695,9 @@ def rule_descriptor_cache(check, rule, rule_weak):
                 ok = v == selft
             else:
                 ok = v[0] in ('C', 'M') and bound in (v[2] if v[0] == 'C' else v[3]) or bound2 in (v[2] if v[0] == 'C' else v[3])
-            ok_store = len(stores) == 1 and stores[0].args[0] in (bound, bound2) and stores[0].args[1] == v
+            # the entry left in the cache for this binding is the object returned (earlier stores under the same key are
+            # overwritten: whether publishing them matters is a concurrency question, C17.R3)
+            ok_store = bool(stores) and all(s_.args[0] in (bound, bound2) for s_ in stores) and stores[-1].args[1] == v
             if ok and ok_store:
                 check.holds(rule, st, 'cache miss: the entry is built from the bound function and stored under it', key=key)
             else:
@@ -711,6 +718,47 @@ def rule_descriptor_cache(check, rule, rule_weak):
                     check.holds(rule_weak, st, 'weak-keyed store of a value that does not reference its key', key=k2)
 
 
+def rule_cache_per_descriptor(check, rule):
+    """C18.R4b: the binding cache belongs to one descriptor object.  The mapping `__get__` looks the bound function up in
+    must be created per instance (assigned on self in __init__); as a class attribute or module global it is shared by
+    every translator wrapping the same raw function, and whichever was bound first answers for all of them."""
+    repo = check.repo
+    fi = repo.func('_util:OverrideableDataDesc.__get__')
+    ci = fi.cls
+    selfn = fi.params()[0][0]
+    caches = set()
+    for n_ in ast.walk(fi.node):
+        if isinstance(n_, ast.Subscript) and isinstance(n_.value, ast.Attribute) and isinstance(n_.value.value, ast.Name) \
+                and n_.value.value.id == selfn:
+            caches.add(n_.value.attr)
+    st = site_of(fi, fi.node)
+    if not caches:
+        check.inconclusive(rule, st, '__get__ does not subscript an attribute of the descriptor: cache not identified', key='desc-cache|none')
+        return
+    init = ci.methods.get('__init__')
+    for attr in sorted(caches):
+        key = 'desc-cache|%s' % attr
+        per_inst = False
+        if init is not None:
+            iself = init.params()[0][0]
+            for n_ in ast.walk(init.node):
+                if isinstance(n_, ast.Assign):
+                    for t in n_.targets:
+                        if isinstance(t, ast.Attribute) and t.attr == attr and isinstance(t.value, ast.Name) and t.value.id == iself \
+                                and isinstance(n_.value, (ast.Call, ast.Dict)) and n_ in init.node.body:
+                            per_inst = True
+        if per_inst:
+            check.holds(rule, st, 'self.%s is created unconditionally in __init__: one cache per descriptor object' % attr, key=key)
+        elif attr in ci.assigns:
+            check.violation(rule, '%s:%d %s' % (ci.module.relpath, ci.assigns[attr].lineno, ci.key), 'the binding cache %r is a class attribute: it is '
+                            'shared by every descriptor, so two translators wrapping the same function (or the same translator class on '
+                            'another owner) find each other\'s entries -- the answer depends on which was retrieved first' % attr, key=key,
+                            witness='two distinct translators of one raw function on the same instance: the first retrieved answers for both')
+        else:
+            check.violation(rule, st, 'the binding cache self.%s is not created per descriptor in __init__' % attr, key=key,
+                            witness='two distinct translators of one raw function on the same instance: the first retrieved answers for both')
+
+
 def _weak_containers(repo, ci):
     out = set()
     for m in ci.methods.values():
@@ -720,3 +768,37 @@ def _weak_containers(repo, ci):
                     if isinstance(t, ast.Attribute):
                         out.add(t.attr)
     return out
+
+
+def rule_cache_publication(check, rule):
+    """C17.R3: the shared per-descriptor cache never holds a placeholder.  Every store into a mapping held by the
+    descriptor (state other threads read through the same `__get__`) must store the object that this activation
+    returns for that key; an earlier store of something else is visible to a concurrent reader in between."""
+    repo = check.repo
+    fi = repo.func('_util:OverrideableDataDesc.__get__')
+    check.analysed(fi)
+    it = Interp(repo, Policy(try_forks=True))
+    paths = it.run(fi)
+    check.absorb(it)
+    selft = ('P', fi.params()[0][0])
+    n = 0
+    seen = set()
+    for p in paths:
+        if p.status != 'return':
+            continue
+        stores = [e for e in p.effects if e.kind == 'mut' and e.op == 'setitem' and e.target[0] == 'A' and e.target[1] == selft]
+        if not stores:
+            continue
+        n += 1
+        for s_ in stores:
+            key = '%s|publish|%s' % (fi.key, norm(s_.node)[:60])
+            if key in seen:
+                continue
+            seen.add(key)
+            if s_.args[1] == p.value:
+                check.holds(rule, site_of(fi, s_.node), 'the entry stored in self.%s is the object returned for it' % s_.target[2], key=key)
+            else:
+                check.violation(rule, site_of(fi, s_.node), 'self.%s[...] is first set to %s and only later to the object that is returned: a thread '
+                                'that looks the entry up in between gets the placeholder' % (s_.target[2], show(s_.args[1])[:40]), key=key,
+                                witness='first access of obj.method from two threads: one of them gets the unbound wrapper')
+    check.floor(rule, 'storing paths of OverrideableDataDesc.__get__', n, 1)
